@@ -145,6 +145,14 @@ func checkC18(c *Ctx) {
 		reportFindings(c, p, "C18.pool", nil, hits, "")
 		c.Ob("C18.pool", "-", "-", "pool-gets-analysed", "-", sites > 0, "no sync.Pool.Get site found")
 	}
+	// ---- package-level caches are read-only for their users
+	c.Rule("C18.cache", "L-CACHE: an object obtained from a package-level cache (sync.Map global: Load, or the getter functions that return its values) is never written — by a store, or by handing it, or a local now holding it, to a callee whose mod summary writes that argument's elements — and never returned by an exported function: cached objects are shared by all callers and goroutines", 8)
+	{
+		ci, sites, hits := cacheViolations(p, eff, libFuncs(p))
+		c.Instance("C18.cache", sites)
+		reportFindings(c, p, "C18.cache", nil, hits, "")
+		c.Ob("C18.cache", "-", "-", "caches-and-getters-found", "-", len(ci.globals) >= 8 && len(ci.getters) >= 8, fmt.Sprintf("expected the 8 lagrangeBasis caches and their getters, found %d caches / %d getters", len(ci.globals), len(ci.getters)))
+	}
 	// ---- parallel closures write disjoint ranges (L8)
 	c.Rule("C18.partition", "PARTITION (L8): every func(start,end) closure handed to a parallel helper anywhere in the library writes shared (captured) memory only at indices derived from its own range, under a guard start == k, through sync/atomic, or inside a forwarded range callee", 250)
 	{
